@@ -655,6 +655,7 @@ func fuzz(args []string) {
 	repo := fs.String("repo", "/repo", "")
 	perCase := fs.Int("timeout-ms", 10000, "")
 	prefixFiles := fs.Int("prefix-files", 12, "files whose every token-boundary prefix is tried")
+	ovfMax := fs.Int("overflow-max", 5, "largest repetition count of the overflow family")
 	fs.Parse(args)
 	r := &rng{s: *seed}
 	// probe the known-failing dimensions in-process (a panic here is recovered by runCase)
@@ -721,6 +722,8 @@ func fuzz(args []string) {
 			cases = append(cases, fcase{key: fmt.Sprintf("det:prefix:%s:%d", cf.rel, k), gen: "det-prefix", entry: ent, fi: fi, src: cf.src[:t.end], det: true})
 		}
 	}
+	// "one more than the grammar allows": constructs x repetition counts x contexts
+	cases = append(cases, overflowCases(*ovfMax)...)
 	ndet := len(cases)
 	// ---- seeded set
 	sanitized := 0
